@@ -172,11 +172,17 @@ func corpusFor(fmtName string, salt int64, n int, maxRec int) []corpusInput {
 			for j := 0; j < nrec; j++ {
 				f := &fasta.Fasta{Name: faRandBytes(r, r.Intn(12), "\r\n"), Sequence: faRandBytes(r, []int{0, 1, 79, 80, 81, 200, 30}[r.Intn(7)], "\r\n>")}
 				f.Write(buf)
+				if r.Intn(6) == 0 {
+					buf.WriteString("\n") // a blank line between records
+				}
 			}
 		case "fastq":
 			for j := 0; j < nrec; j++ {
 				n := r.Intn(60)
 				f := &fastq.Fastq{Name: fqBytes(r, r.Intn(12)), Sequence: fqBytes(r, n), Quals: fqBytes(r, n)}
+				if n > 0 && r.Intn(2) == 0 { // lines that begin with bytes which mean something elsewhere in the format family
+					f.Quals[0], f.Sequence[0] = "*@+!~"[r.Intn(5)], "*@+N>"[r.Intn(5)]
+				}
 				f.Write(buf)
 			}
 		case "sam", "samh":
@@ -185,6 +191,9 @@ func corpusFor(fmtName string, salt int64, n int, maxRec int) []corpusInput {
 			}
 			for j := 0; j < nrec; j++ {
 				samRecord(r).Write(buf)
+				if r.Intn(6) == 0 {
+					buf.WriteString("\n") // empty lines are skipped
+				}
 			}
 		case "bed":
 			n := 3 + r.Intn(10)
@@ -193,6 +202,9 @@ func corpusFor(fmtName string, salt int64, n int, maxRec int) []corpusInput {
 					buf.WriteString("#comment\n")
 				}
 				bedRecord(r, n).Write(buf)
+				if r.Intn(6) == 0 {
+					buf.WriteString("\n") // empty lines are skipped
+				}
 			}
 		case "newick":
 			for j := 0; j < nrec; j++ {
